@@ -1,4 +1,5 @@
 import builtins
+import contextlib
 import copy
 import copyreg
 import functools
@@ -282,11 +283,12 @@ def mutate_value(
         if not mutate_safe:
             value = protect_via_deepcopy(value)
             mutate_safe = True
-        for attr, attr_value in attrs.items():
-            if attr in used_attrs:
-                continue
-            if attr_value is not MISSING:
-                setattr(value, attr, attr_value)
+        with _restore_attrs_on_error(value, only_if=inplace):
+            for attr, attr_value in attrs.items():
+                if attr in used_attrs:
+                    continue
+                if attr_value is not MISSING:
+                    setattr(value, attr, attr_value)
     elif attrs:
         raise ValueError("Cannot use attrs on a missing value without a constructor.")
 
@@ -298,12 +300,31 @@ def mutate_value(
     if attr_transforms:
         if not mutate_safe:
             value = protect_via_deepcopy(value)
-        for attr, attr_transform in attr_transforms.items():
-            transformed_value = attr_transform(getattr(value, attr, MISSING))
-            if transformed_value is not MISSING:
-                setattr(value, attr, transformed_value)
+        with _restore_attrs_on_error(value, only_if=inplace):
+            for attr, attr_transform in attr_transforms.items():
+                transformed_value = attr_transform(getattr(value, attr, MISSING))
+                if transformed_value is not MISSING:
+                    setattr(value, attr, transformed_value)
 
     return value
+
+
+@contextlib.contextmanager
+def _restore_attrs_on_error(obj: Any, only_if: bool = True):
+    """
+    Make a multi-attribute in-place mutation of `obj` all-or-nothing: if any of
+    the assignments performed inside the context raises, the attributes
+    already assigned (and anything they invalidated) are put back.
+    """
+    state = getattr(obj, "__dict__", None) if only_if else None
+    saved = dict(state) if isinstance(state, dict) else None
+    try:
+        yield
+    except BaseException:
+        if saved is not None:
+            state.clear()
+            state.update(saved)
+        raise
 
 
 def prepare_attr_value(
